@@ -112,7 +112,14 @@ class Runtime {
       l(N, name, v, generalPath) { self.rec('l', [name, v, generalPath]); set(N, 'l', name, { v, lv: generalPath }) },
       v(N, evName, v, final, mutated, capture, isDynamic, generalPath) {
         self.rec('v', [evName, v, final, mutated, capture, isDynamic, generalPath])
-        set(N, 'v', evName, { v, final, mutated, capture, isDynamic, lv: generalPath })
+        // as the runtime: a dynamic listener replaces the previous dynamic listener of that event name,
+        // static listeners are simply added
+        if (isDynamic) {
+          set(N, 'v', evName + ':dyn', { v, final, mutated, capture, isDynamic, lv: generalPath })
+        } else if (N) {
+          if (!N.attrs) N.attrs = []
+          N.attrs.push(['v:' + evName + ':static', { v, final, mutated, capture, isDynamic, lv: generalPath }])
+        }
       },
       setFnFilter() {},
       setEventListenerWrapper() {},
